@@ -30,6 +30,7 @@ type config struct {
 	CAKind    string
 	Route     string
 	Freshest  bool
+	FreshDNS  bool // the certificate's freshest-CRL extension names a dNSName, no URI
 	NoCRLSign bool
 	Len       int
 	Cache     string
@@ -54,6 +55,7 @@ func scenario(c config, behs []string) *sims.Scenario {
 		}
 	}
 	sh.Freshest = c.Freshest
+	sh.FreshestDNS = c.FreshDNS
 	sh.CDPGrouped = c.Grouped
 	sc.Plans = make([]sims.CertPlan, c.Len)
 	sc.Plans[0] = sims.CertPlan{Shape: sh, CRL: behs}
@@ -91,7 +93,7 @@ func judge(r *core.Run, sc *sims.Scenario, out *sims.Outcome) {
 		for k := range admitted {
 			a = append(a, k)
 		}
-		r.Violation(fmt.Sprintf("crl[%s]fresh=%v,nocrlsign=%v,route=%s:got-%s", culprit(sc), sc.Plans[0].Shape.Freshest, sc.Plans[1].Shape.NoCRLSign, sc.CRLRoute, got),
+		r.Violation(fmt.Sprintf("crl[%s]fresh=%v,nocrlsign=%v,route=%s:got-%s", culprit(sc), sc.Plans[0].Shape.Freshest || sc.Plans[0].Shape.FreshestDNS, sc.Plans[1].Shape.NoCRLSign, sc.CRLRoute, got),
 			fmt.Sprintf("points %v: library %s, reference admits %v (%s)", behs, got, a, sims.CanonString(sims.Canon(out.Results))), sc)
 		return
 	}
@@ -127,7 +129,7 @@ func judge(r *core.Run, sc *sims.Scenario, out *sims.Outcome) {
 // culprit names the first point that is not a clean one.
 func culprit(sc *sims.Scenario) string {
 	for _, b := range sc.Plans[0].CRL {
-		if sims.CRLClass(b) != sims.CRLOK || sc.Plans[0].Shape.Freshest {
+		if sims.CRLClass(b) != sims.CRLOK || sc.Plans[0].Shape.Freshest || sc.Plans[0].Shape.FreshestDNS {
 			return b
 		}
 	}
@@ -135,7 +137,7 @@ func culprit(sc *sims.Scenario) string {
 }
 
 func nontrivial(c config, behs []string) bool {
-	if c.Freshest || c.NoCRLSign {
+	if c.Freshest || c.NoCRLSign || c.FreshDNS {
 		return true
 	}
 	for _, b := range behs {
@@ -317,6 +319,21 @@ func run(r *core.Run) int {
 					}
 					if ncs {
 						continue
+					}
+					if !fresh && ca == "p256" {
+						// a freshest-CRL pointer in the certificate that names no URI
+						// (a dNSName): still a pointer no delta-less bundle honours
+						cd := c
+						cd.FreshDNS = true
+						for _, a := range alpha {
+							jobs = append(jobs, job{cd, []string{a}})
+							for _, b := range alpha {
+								if r.Quick() && rng.IntN(4) != 0 {
+									continue
+								}
+								jobs = append(jobs, job{cd, []string{a, b}})
+							}
+						}
 					}
 					if !fresh {
 						// the same singles and pairs with a signing time supplied
